@@ -16,6 +16,7 @@ import (
 	"verif/internal/c14"
 	"verif/internal/c15"
 	"verif/internal/c19"
+	"verif/internal/c20"
 	"verif/internal/c16"
 	"verif/internal/c17"
 	"verif/internal/scen"
@@ -34,6 +35,7 @@ var checks = map[string]func(tier, replay string){
 	"C14": c14.Main,
 	"C15": c15.Main,
 	"C19": c19.Main,
+	"C20": c20.Main,
 	"C16": c16.Main,
 	"C17": c17.Main,
 }
